@@ -17,6 +17,7 @@ func init() {
 		c02OneFrameOnePacket(c)
 		c02Synchronous(c)
 		c02CandidateIsolation(c)
+		c03ConstructionWiring(c, "C02.6b") // the transport's packet event reaches onPacket
 		c02Jsonp(c)
 		c03AdmittedStates(c, "C02.1b", map[string]bool{"onPacket/emit(packet)": true}) // delivered whenever (and only when) open
 		// WebTransport frames: the kind and the bytes of an inbound message come from the framing layer
